@@ -74,9 +74,19 @@ def _process_point_estimate(x, primals, point_estimates, insert):
     return in_out(x)
 
 
+def _white_noise_like(key, primals):
+    """Standard normal noise in the sense of the energies: `0.5 * |x|^2` has
+    unit variance per real degree of freedom, whereas `random.normal` draws
+    complex numbers with variance 1/2 for the real and the imaginary part."""
+    white = random_like(key, primals)
+    return tree_map(
+        lambda x: jnp.sqrt(2.0) * x if jnp.iscomplexobj(x) else x, white
+    )
+
+
 def sample_likelihood(likelihood: Likelihood, point_estimates, primals, key):
     lh, p_liquid = likelihood.freeze(point_estimates=point_estimates, primals=primals)
-    white_sample = random_like(key, lh.left_sqrt_metric_tangents_shape)
+    white_sample = _white_noise_like(key, lh.left_sqrt_metric_tangents_shape)
     return lh.left_sqrt_metric(p_liquid, white_sample)
 
 
@@ -120,7 +130,7 @@ def draw_linear_residual(
 
     subkey_nll, subkey_prr = random.split(key, 2)
     nll_smpl = sample_likelihood(likelihood, point_estimates, pos, key=subkey_nll)
-    prr_inv_metric_smpl = random_like(key=subkey_prr, primals=p_liquid)
+    prr_inv_metric_smpl = _white_noise_like(subkey_prr, p_liquid)
     # One may transform any metric sample to a sample of the inverse
     # metric by simply applying the inverse metric to it
     prr_smpl = prr_inv_metric_smpl
